@@ -1,6 +1,6 @@
 """C04 — eval fails only with the JSError family."""
 
-from ..rules import builtins, encoding, exceptions, frontprogress, pairing, textparse
+from ..rules import frontend, builtins, encoding, exceptions, frontprogress, pairing, textparse
 
 
 def run(ctx, rep):
@@ -19,6 +19,8 @@ def run(ctx, rep):
     pairing.rule_contextmanager_cleanup(ctx, rep, "C04-R8", where=lambda f: f.module.name in ("parser", "lexer", "regex.parser", "compiler"), what=" of the front end")
     pairing.rule_lookahead_restores(ctx, rep, "C04-R9")
     textparse.rule_ascii_digit_scanners(ctx, rep, "C04-R7", modules=("lexer", "regex.parser", "context", "vm", "values"), floor=3)
+    frontend.rule_front_end_recursion_converted(ctx, rep, "C04-R10")
+    implicit.rule_bounded_repetition(ctx, rep, "C04-R11")
     rep.undecided += [
         "that reported line/column are the right numbers (value property)",
         "RecursionError beyond the documented parser nesting limit",
